@@ -602,3 +602,9 @@ PROP = with_src(PROP, share=10,
                           "Src.Requirement.__hash___eq_model", "Src.Requirement.__init___eq_model",
                           "Src.Requirement.__init___eq_model'", "Src.Requirement.__eq___eq_model", "Src.Requirement.__eq___parsed",
                           "Src.Requirement.__eq___other", "Src.ofParsed_wf"])
+
+# x9: the methods of the tokenizer all three grammars run on (`check/read/expect/consume/raise_syntax_error`, `enclosing_tokens` cut at
+# its `yield`) are translated from `_tokenizer.py` and proved equal to the primitives of PkgModel/PyTok.lean that the translated parser
+# functions call — the digest guard on the class is gone, an edit of a method is a failed proof obligation here
+from srccall import X9_TOK_FUNCS, X9_TOK_THEOREMS, X9_TOK_MODULE  # noqa: E402
+PROP = with_src(PROP, share=10, functions=X9_TOK_FUNCS, module=[X9_TOK_MODULE], theorems=X9_TOK_THEOREMS)
